@@ -45,16 +45,17 @@ func stringSizeOK(p mq.ControlPacket, s string, n int64) (bool, string) {
 			}
 		}
 	}
-	switch p.(type) {
-	case *mq.ConnAck, *mq.PubAck, *mq.PubRel, *mq.Disconnect:
-		if hr, ok := p.(mq.HasReason); ok && hr.ReasonCode() >= 0x80 {
-			suffix := " " + hr.ReasonCode().String() + "!"
-			if rs, ok := p.(interface{ ReasonString() string }); ok && rs.ReasonString() != "" {
-				suffix += " " + rs.ReasonString()
+	// a reason (name, then the reason string) may follow the size; whether
+	// it does for a given code is not part of this property
+	if hr, ok := p.(mq.HasReason); ok {
+		suffix := " " + hr.ReasonCode().String() + "!"
+		if rs, ok := p.(interface{ ReasonString() string }); ok && rs.ReasonString() != "" {
+			if strings.HasSuffix(rest, suffix+" "+rs.ReasonString()) {
+				rest = strings.TrimSuffix(rest, suffix+" "+rs.ReasonString())
 			}
-			if strings.HasSuffix(rest, suffix) {
-				rest = strings.TrimSuffix(rest, suffix)
-			}
+		}
+		if strings.HasSuffix(rest, suffix) {
+			rest = strings.TrimSuffix(rest, suffix)
 		}
 	}
 	want := fmt.Sprintf(" %d bytes", n)
